@@ -6,18 +6,20 @@ Import ListNotations.
 Open Scope Z_scope.
 Ltac Zify.zify_post_hook ::= Z.div_mod_to_equations.
 
+Definition frame_ok (f : frame) : Prop :=
+  0 <= f_usage f < 2 ^ 16 /\ length (f_regs f) = 4%nat /\ Forall (fun v => 0 <= v < 2 ^ 64) (f_regs f).
 Definition frames_ok (stacks : list frame) : Prop :=
-  length stacks = 8%nat /\ Forall (fun f => 0 <= f_usage f < 2 ^ 16) stacks.
+  length stacks = 8%nat /\ Forall frame_ok stacks.
 
 Lemma frame_get_ok stacks k : frames_ok stacks -> 0 <= k < 8 ->
-  exists f, frame_get stacks k = Ok f /\ 0 <= f_usage f < 2 ^ 16.
+  exists f, frame_get stacks k = Ok f /\ frame_ok f.
 Proof.
   intros [Hl Hf] Hk. unfold frame_get, flen. rewrite Hl.
   destruct (Z.leb_spec 0 k); [|lia]. destruct (Z.ltb_spec k (Z.of_nat 8)); [|lia]. cbn [andb].
   eexists; split; [reflexivity|]. rewrite Forall_forall in Hf. apply Hf, nth_In. lia.
 Qed.
 
-Lemma frame_set_ok stacks k f : frames_ok stacks -> 0 <= k < 8 -> 0 <= f_usage f < 2 ^ 16 ->
+Lemma frame_set_ok stacks k f : frames_ok stacks -> 0 <= k < 8 -> frame_ok f ->
   exists st', frame_set stacks k f = Ok st' /\ frames_ok st' /\ frame_get st' k = Ok f.
 Proof.
   intros [Hl Hf] Hk Hu. unfold frame_set, flen. rewrite Hl.
@@ -63,12 +65,14 @@ Proof.
     specialize (Htgt S1).
     destruct (Z.geb_spec fidx 8) as [G|G]; destruct (Z.leb_spec 8 fidx) as [L|L]; try lia; [reflexivity|].
     (* local call *)
-    destruct (frame_get_ok stacks fidx Hf ltac:(lia)) as (f0 & G0 & U0).
+    destruct (frame_get_ok stacks fidx Hf ltac:(lia)) as (f0 & G0 & U0 & _).
+    assert (FK : forall ra, frame_ok {| f_ret := ra; f_regs := [rd reg 6; rd reg 7; rd reg 8; rd reg 9]; f_usage := f_usage f0 |}).
+    { intros ra. split; [exact U0|]. split; [reflexivity|]. repeat constructor; apply rd_range; exact Hr. }
     unfold frames_save_regs. rewrite G0. cbn [bind].
-    destruct (frame_set_ok stacks fidx {| f_ret := f_ret f0; f_regs := [rd reg 6; rd reg 7; rd reg 8; rd reg 9]; f_usage := f_usage f0 |} Hf ltac:(lia) U0)
+    destruct (frame_set_ok stacks fidx {| f_ret := f_ret f0; f_regs := [rd reg 6; rd reg 7; rd reg 8; rd reg 9]; f_usage := f_usage f0 |} Hf ltac:(lia) (FK _))
       as (st1 & S1' & F1 & G1).
     rewrite S1'. cbn [bind]. unfold frames_save_ret. rewrite G1. cbn [bind f_ret f_regs f_usage].
-    destruct (frame_set_ok st1 fidx {| f_ret := next; f_regs := [rd reg 6; rd reg 7; rd reg 8; rd reg 9]; f_usage := f_usage f0 |} F1 ltac:(lia) U0)
+    destruct (frame_set_ok st1 fidx {| f_ret := next; f_regs := [rd reg 6; rd reg 7; rd reg 8; rd reg 9]; f_usage := f_usage f0 |} F1 ltac:(lia) (FK _))
       as (st2 & S2' & F2 & G2).
     rewrite S2'. cbn [bind]. unfold frames_usage. rewrite G2. cbn [bind f_usage].
     rewrite (cast_u64_id (f_usage f0)) by (fold_pows; lia).
@@ -92,7 +96,7 @@ Proof.
   intros Ho. arm_start.
   destruct (Z.gtb_spec fidx 0) as [G|G]; destruct (Z.ltb_spec 0 fidx) as [L|L]; try lia; [|reflexivity].
   unfold csub. rewrite chk_ok by (apply in_ty_usz; fold_pows; lia). cbn [bind].
-  destruct (frame_get_ok stacks (fidx - 1) Hf ltac:(lia)) as (f0 & G0 & U0).
+  destruct (frame_get_ok stacks (fidx - 1) Hf ltac:(lia)) as (f0 & G0 & U0 & _).
   unfold frames_restore_regs, frames_ret, frames_usage. rewrite G0. cbn [bind].
   rewrite restore_rd10. rewrite (cast_u64_id (f_usage f0)) by (fold_pows; lia).
   unfold cadd. rewrite chk_u64 by (fold_pows; lia). cbn [bind conv].
